@@ -4,7 +4,7 @@
 # it (path rewrite), built into harness/target-seed (override with SEED_TARGET_DIR; concurrent
 # callers serialise on cargo's lock) and run with evidence redirected.
 set -e
-PATCH=$1; shift
+PATCH=$(realpath "$1"); shift
 B=/tmp/seedrun.$$; R=$B/repo; H=$B/verif
 git -C /repo worktree remove --force $R 2>/dev/null || true
 rm -rf $B; mkdir -p $B/out
